@@ -154,6 +154,18 @@ def cfgStep (c : Cfg) (ws : List String) : Option Cfg :=
       some { c with pdefs := c.pdefs ++ [⟨"@real", [⟨"", "any"⟩], []⟩]
                     flows := c.flows ++ [{ name := pctDec n, url := some u, procs := procs, req := rq, res := rs }] }
     | _, _ => none
+  | ["rawfile", dir, kind] =>
+    -- a file given by its content kind: documents without content and their neighbours.  In the flows directory
+    -- every such file is a flow without name; in the quotas directory a file without `quotas`; path-params files
+    -- are only warned about; the gateway config must decode
+    if !["comment", "dashes", "tilde", "null", "blank", "empty", "dashes-comment", "nullentry", "valid-pp", "valid-gw",
+         "broken"].contains kind then none
+    else if dir == "flows" then some { c with flows := c.flows ++ [{ name := "" }] }
+    else if dir == "quotas" then some { c with rawQuota := true }
+    else if dir == "path_params" then some c
+    else if dir == "gateway" then
+      some { c with gatewayBad := c.gatewayBad || kind == "comment" || kind == "blank" || kind == "broken" }
+    else none
   | ["connnull", f, d] =>
     match parseDir d with
     | some .req => updFlow c (pctDec f) fun r => { r with req := r.req ++ [⟨.nothing, .nothing⟩] }
